@@ -11,5 +11,49 @@ let handle line =
       let st = bhiksha_write b vs in
       let outs = List.init (n - 1) (fun i -> let (x, y) = read_next b st (z_of_int i) in hex_of_z x ^ ":" ^ hex_of_z y) in
       String.concat " " (hex_of_z b :: hex_of_z (array_count (z_of_int n) max_next (z_of_hex cfg)) :: outs)
+  | "QZ" :: pb :: bb :: rest ->
+      (* values in units of 1/64 (signed decimal); output: tables and read-back values as exact rationals num/den, or -inf *)
+      let p64 = (match z_of_int 64 with Zpos p -> p | _ -> XH) in
+      let q_of s = { qnum = z_of_int (int_of_string s); qden = p64 } in
+      let parts = ref [[]; []; []] and cur = ref (-1) in
+      List.iter (fun x -> if x = ";" then incr cur else
+                   parts := List.mapi (fun i l -> if i = !cur then x :: l else l) !parts) rest;
+      let get i = List.rev (List.nth !parts i) in
+      let probs = List.map q_of (get 0) and backoffs = List.map q_of (get 1) in
+      let pbits = nat_of_int (int_of_string pb) and bbits = nat_of_int (int_of_string bb) in
+      let tp = train_prob pbits probs and tb = train_backoff bbits backoffs in
+      let show = function None -> "-inf" | Some q -> hex_of_z q.qnum ^ "/" ^ hex_of_pos q.qden in
+      let tests = List.map (fun t -> match String.split_on_char ':' t with
+          | [p; b] ->
+              let pc = encode_prob tp (q_of p) in
+              let bq = q_of b in
+              let bshow = if bq.qnum = Z0 then "0/1" else show (decode tb (stored bbits (encode_backoff_nonzero tb bq))) in
+              show (decode tp pc) ^ ":" ^ bshow
+          | _ -> "?") (get 2) in
+      String.concat " " (["P"] @ List.map show tp @ ["B"] @ List.map show tb @ ["R"] @ tests)
+  | "QE" :: bb :: rest ->
+      (* encode/decode against GIVEN tables (the implementation's float centres as exact rationals num/den hex, or -inf):
+         QE <backoff bits> ; <prob centres> ; <back-off centres incl. the two reserved> ; <p:b pairs in 1/64> *)
+      let p64 = (match z_of_int 64 with Zpos p -> p | _ -> XH) in
+      let q_of s = { qnum = z_of_int (int_of_string s); qden = p64 } in
+      let centre s = if s = "-inf" then None else
+          (match String.split_on_char '/' s with
+           | [a; b] -> Some { qnum = z_of_hex a; qden = (match z_of_hex b with Zpos p -> p | _ -> XH) }
+           | _ -> failwith "centre") in
+      let parts = ref [[]; []; []] and cur = ref (-1) in
+      List.iter (fun x -> if x = ";" then incr cur else
+                   parts := List.mapi (fun i l -> if i = !cur then x :: l else l) !parts) rest;
+      let get i = List.rev (List.nth !parts i) in
+      let tp = List.map centre (get 0) and tb = List.map centre (get 1) in
+      let bbits = nat_of_int (int_of_string bb) in
+      let show = function None -> "-inf" | Some q -> hex_of_z q.qnum ^ "/" ^ hex_of_pos q.qden in
+      let tests = List.map (fun t -> match String.split_on_char ':' t with
+          | [p; b] ->
+              let pc = encode_prob tp (q_of p) in
+              let bq = q_of b in
+              let bc = if bq.qnum = Z0 then O else stored bbits (encode_backoff_nonzero tb bq) in
+              Printf.sprintf "%d=%s:%d=%s" (int_of_nat pc) (show (decode tp pc)) (int_of_nat bc) (if bq.qnum = Z0 then "0/1" else show (decode tb bc))
+          | _ -> "?") (get 2) in
+      String.concat " " ("R" :: tests)
   | _ -> "?"
 let () = each_line handle
